@@ -38,6 +38,9 @@ def run(replay=None):
         if t['setup_error']:
             raise common.MachineryError('wallet setup failed: %s' % t['setup_error'])
         for nt in t.get('notes', []):
+            if nt.startswith('transaction_import'):
+                ck.beyond('transaction_import crashes instead of refusing', '%s wallet seed=%s: %s' % (tuple(t['kind']), t['seed'], nt))
+                continue
             ck.beyond('a fee bump of a transaction reloaded from the wallet database is not signed (the wallet refuses to send it)',
                       '%s wallet seed=%s: %s' % (tuple(t['kind']), t['seed'], nt))
         for e in t['events']:
